@@ -208,7 +208,7 @@ func (g *typeGen) typ(t *rapid.T, depth int) TypeDesc {
 		if g.cfg.Pool {
 			var names []string
 			for _, p := range Pool {
-				if (p.FoldOnly && !g.cfg.FoldOnly) || (p.Recursive && !g.cfg.Recursive) {
+				if (p.FoldOnly && !g.cfg.FoldOnly) || (p.Recursive && !g.cfg.Recursive) || p.Family {
 					continue
 				}
 				names = append(names, p.Name)
